@@ -22,8 +22,20 @@ from . import c05_util as U
 from .common import SRC, add_failure, bump, load_known, new_outcome, rat, unrat
 
 PROP = "C05"
-PROPS_FILES = ["CogentModel/Props/C05.lean", "CogentModel/Props/C05Real.lean"]
-LEAN_TARGETS = ["CogentModel.Props.C05", "CogentModel.Props.C05Real"]
+PROPS_FILES = [
+    "CogentModel/Props/C05.lean",
+    "CogentModel/Props/C05Real.lean",
+    "CogentModel/Props/C05Expm.lean",
+    "CogentModel/Props/C05Alphabet.lean",
+    "CogentModel/Props/C05GenStat.lean",
+]
+LEAN_TARGETS = [
+    "CogentModel.Props.C05",
+    "CogentModel.Props.C05Real",
+    "CogentModel.Props.C05Expm",
+    "CogentModel.Props.C05Alphabet",
+    "CogentModel.Props.C05GenStat",
+]
 DRIVER = "drv_c05"
 TRUSTED = [
     "hand-written models lean/CogentModel/Model/RateMatrix.lean (calcQ, exchangeability, motif-prob models, rate classes) "
@@ -271,6 +283,8 @@ def correspondence(ctx):
 
     _corr_rates(ctx, out)
     _corr_expm(ctx, out)
+    _corr_solve(ctx, out)
+    _corr_hypotheses(ctx, out)
     return out
 
 
@@ -328,7 +342,7 @@ def _qt_cases(ctx, rng, which):
 
 def _corr_expm(ctx, out):
     np = _np()
-    from cogent3.maths.matrix_exponentiation import PadeExponentiator, TaylorExponentiator
+    from cogent3.maths.matrix_exponentiation import FastExponentiator, PadeExponentiator, TaylorExponentiator
 
     rng = ctx.subrng("expm")
     small = ["GN", "ssGN", "K80", "JC69", "GTR", "TN93", "HKY85", "F81", "user:TRN-gaps", "user:General", "user:NRN-fwd"]
@@ -349,7 +363,17 @@ def _corr_expm(ctx, out):
         with warnings.catch_warnings():
             warnings.simplefilter("ignore")
             Pp = PadeExponentiator(Q)(t)
-            Pt = TaylorExponentiator(Q)(t) if norm < 12 else None
+            T = TaylorExponentiator(Q)
+            Pt = T(t) if norm < 12 else None
+            try:
+                E = FastExponentiator(Q)
+                if E.roots.dtype.kind != "c" and E.evT.dtype.kind != "c":
+                    ev_e = np.exp(t * E.roots)
+                    reqs.append(("eigen", dict(n=n, evT=U.rmat(E.evT), evI=U.rmat(E.evI), e=[rat(float(x)) for x in ev_e])))
+                    scale = max(1.0, float(np.abs(E.evT).max() * np.abs(E.evI).max() * max(1.0, float(np.abs(ev_e).max()))))
+                    meta.append(("eigen", label, Q, t, E(t), scale))
+            except np.linalg.LinAlgError:
+                pass
         base = dict(n=n, Q=U.rmat(Q), t=rat(t))
         # every squaring doubles the size of the exact rationals: j <= 6 keeps a 4x4 case under ~1 s
         if (n <= 5 and norm < 64) or (ctx.thorough and norm < 3):
@@ -357,7 +381,7 @@ def _corr_expm(ctx, out):
             meta.append(("pade", label, Q, t, Pp, norm))
         if Pt is not None and n <= 25:
             reqs.append(("taylor", dict(base, q=21, fuel=400, rtol=rat(rtol), atol=rat(atol))))
-            meta.append(("taylor", label, Q, t, Pt, norm))
+            meta.append(("taylor", label, Q, t, (Pt, int(T.q)), norm))
     replies = ctx.driver.batch(reqs)
     for (kind, label, Q, t, Pimpl, norm), rep in zip(meta, replies):
         out["evaluations"] += 1
@@ -368,6 +392,24 @@ def _corr_expm(ctx, out):
             add_failure(out, "corr", f"{kind}: model returned no P", inp, "P", rep, sig=f"corr:{kind}:noP")
             continue
         Pe = U.fmat(rep["P"])
+        if kind == "eigen":
+            # `norm` slot carries the magnitude scale of the products here
+            d = U.maxabs_diff(Pe, Pimpl)
+            bump(out, "eigen_scale", "<1e2" if norm < 1e2 else ("<1e6" if norm < 1e6 else ">=1e6"))
+            if not d <= 1e-10 * norm:
+                add_failure(out, "corr", "eigen exponentiator (inner + clip): model != implementation", inp, "exact value",
+                            f"max abs diff {d:.3e}", sig="corr:eigen")
+            else:
+                out["nontrivial"].add(("eigen", label, t))
+            continue
+        if kind == "taylor":
+            Pimpl, impl_q = Pimpl
+            k = int(rep["k"])
+            model_q = k + 1 if k >= 21 else 21
+            bump(out, "taylor_q_model_minus_impl", model_q - impl_q)
+            if abs(model_q - impl_q) > 1:
+                add_failure(out, "corr", "Taylor lengthening count: model and implementation differ by more than one step", inp,
+                            model_q, impl_q, sig="corr:taylor:k")
         d = U.maxabs_diff(Pe, Pimpl)
         if kind == "pade":
             bump(out, "pade_q", rep["q"])
@@ -385,6 +427,105 @@ def _corr_expm(ctx, out):
         if kind == "pade" and len(out["samples"]) < 6 and Q.shape[0] == 4:
             out["samples"].append(dict(model=label, t=t, pade_q=rep["q"], pade_j=rep["j"],
                                        P_impl_row0=[float(x) for x in Pimpl[0]], P_model_row0=[float(x) for x in Pe[0]]))
+
+
+def _corr_solve(ctx, out):
+    """the Gauss-Jordan model of `solve` against numpy.linalg.solve on random well-conditioned and on singular matrices"""
+    np = _np()
+    rng = ctx.subrng("solve")
+    reqs, meta = [], []
+    for it in range(ctx.budget(40, 400)):
+        n = rng.choice([1, 2, 3, 4, 5, 6])
+        kind = rng.random()
+        D = np.array([[rng.randint(-8, 8) / rng.choice([1, 2, 4, 8]) for _ in range(n)] for _ in range(n)], float)
+        N = np.array([[rng.randint(-8, 8) / rng.choice([1, 2, 4]) for _ in range(n)] for _ in range(n)], float)
+        if kind < 0.55:
+            D += np.diag([rng.choice([-1, 1]) * (np.abs(D[i]).sum() + 1) for i in range(n)])  # diagonally dominant
+            what = "dominant"
+        elif kind < 0.75:
+            what = "random"
+        elif n > 1:
+            i, j = rng.sample(range(n), 2)
+            if rng.random() < 0.5:
+                D[i] = D[j] * rng.choice([1, -2, 0.5])  # dependent rows: exactly singular in floats too
+            else:
+                D[:, i] = 0.0
+            what = "singular"
+        else:
+            D[0, 0] = 0.0
+            what = "singular"
+        if rng.random() < 0.3 and n > 1:  # force a row swap: zero leading pivot
+            D[0, 0] = 0.0
+        reqs.append(("solve", dict(n=n, D=U.rmat(D), N=U.rmat(N))))
+        meta.append((what, D, N))
+    for (what, D, N), rep in zip(meta, ctx.driver.batch(reqs)):
+        out["evaluations"] += 1
+        bump(out, "solve_case", what)
+        bump(out, "solve_n", D.shape[0])
+        inp = dict(D=D.tolist(), N=N.tolist())
+        try:
+            X = np.linalg.solve(D, N)
+            err = None
+        except np.linalg.LinAlgError:
+            X, err = None, "LinAlgError"
+        if "err" in rep:
+            bump(out, "solve_outcome", "model:singular")
+            # numpy must refuse too, or return garbage (an exactly singular matrix can slip through LU with a tiny pivot)
+            if X is not None and np.isfinite(X).all() and np.abs(D @ X - N).max() <= 1e-6 * max(1.0, float(np.abs(X).max())):
+                add_failure(out, "corr", "solve: model says singular, numpy returns an accurate solution", inp, "LinAlgError", X.tolist(),
+                            sig="corr:solve:singular")
+            continue
+        bump(out, "solve_outcome", "model:solved")
+        if unrat(rep["residual"]) != 0:
+            add_failure(out, "corr", "solve: exact residual D*F-N is non-zero", inp, 0, rep["residual"], sig="corr:solve:residual")
+        F = U.fmat(rep["F"])
+        if X is None:
+            # numpy refused a matrix the exact elimination solves: only acceptable for a numerically singular D
+            if np.linalg.cond(D) < 1e12:
+                add_failure(out, "corr", "solve: numpy raised on a well-conditioned matrix the model solves", inp, "solution", err,
+                            sig="corr:solve:raise")
+            continue
+        cond = float(np.linalg.cond(D))
+        d = U.maxabs_diff(F, X)
+        mx = max(1.0, max(abs(float(x)) for r in F for x in r))
+        if not d <= 1e-12 * cond * mx + 1e-12:
+            add_failure(out, "corr", "solve: model != numpy.linalg.solve", inp, [[float(x) for x in r] for r in F], X.tolist(),
+                        sig="corr:solve:value")
+        else:
+            out["nontrivial"].add(("solve", what, D.shape[0], float(D.sum())))
+
+
+def _corr_hypotheses(ctx, out):
+    """the structural hypotheses of the Lean theorems, checked on the real model objects:
+    gap-free equal-length alphabets (C05Alphabet) and the shape of GeneralStationary's last_in_column (C05GenStat)"""
+    named, user = _labels()
+    for label in [n for _, n in named] + user:
+        sm = _get_model(out, label)
+        if sm is None or U.is_discrete(sm) or U.USER.get(label, {}).get("cls") == "solved":
+            continue
+        st = U.model_struct(sm)
+        out["evaluations"] += 1
+        gapfree = all(st["gap"] not in w for w in st["words"])
+        eqlen = all(len(w) == st["L"] for w in st["words"])
+        bump(out, "alphabet_hypotheses", "gap-free,equal-length" if (gapfree and eqlen) else "has-gap-motif")
+        from cogent3.evolve import substitution_model as sub
+
+        if not getattr(sm, "_serialisable", {}).get("model_gaps") and not (gapfree and eqlen):
+            add_failure(out, "corr", "alphabet of a model without gap motif violates the hypotheses of C05Alphabet", dict(model=label),
+                        "gap-free equal-length words", st["words"][:4], sig="corr:hyp:alphabet")
+        if st["kind"] == "genstat":
+            lic = [tuple(x) for x in st["last_in_column"]]
+            n = st["n"]
+            ok = (
+                all(a[1] < b[1] for a, b in zip(lic, lic[1:]))
+                and all(j < i < n for i, j in lic)
+                and all(st["pick"][i][j] == 0 for i, j in lic)
+                and {j for _, j in lic} == set(range(n - 1))
+            )
+            bump(out, "genstat_hypotheses", "hold" if ok else "violated")
+            if not ok:
+                add_failure(out, "corr", "GeneralStationary.last_in_column violates the hypotheses of generalStationary_piQ_zero",
+                            dict(model=label), "sorted, i>j, empty target cells, all columns but the last", lic, sig="corr:hyp:genstat")
 
 
 # --------------------------------------------------------------------------
